@@ -36,7 +36,7 @@ def chart_of(beh):
     cur0 = clog[0][1]
   else:
     cur0 = clog[0][1]
-  chart = {"n": n, "par": par, "init": init, "sigs": ["A"], "react": react, "eff": [], "bad": [],
+  chart = {"n": n, "par": par, "init": init, "sigs": ["A"], "react": react, "eff": [], "bad": [], "build": "dyn", "reg": [],
            "xstyle": xstyle, "estyle": ["h"] * n, "istyle": ["h"] * n, "spied": False, "host": "plain", "cap": 5}
   return chart, cur0
 
